@@ -7,13 +7,17 @@
  *
  *   X snap recent=<t> exit=<0|1> c0=<alive>,<commpending>,<used>,<conc>,<passopen>,<pqmin|-> c1=... jobs=<one digit per slot: refs|-> \
  *          pqfail=<dt|-> pqdone=<dt|-> trig=<0|1> tready=<0|1> tododir=<0|1> next=<t> fc=<0|1> ct=<t> timeout=<tv_sec|-1> rfds=<list|-> wfds=<list|-> \
- *          q0=<dt,dt,..|-> q1=<..> qfail=<..> qdone=<..>
+ *          q0=<dt,dt,..|-> q1=<..> qfail=<..> qdone=<..> tusec=<tv_usec> simnow=<the simulator's clock> todo=<entries in queue/todo>
  *
  * <pqmin>, pqfail=, pqdone= are what the CODE reads (prioq_min: the ROOT p[0] of the heap array).  q0= q1= qfail= qdone= are the due times of
  * ALL entries of pqchan[0], pqchan[1], pqfail, pqdone in array order: the driver's oracle takes "the earliest due event" to be the minimum over
  * everything that is queued, independently of which entry sits at the root (a heap whose root is not its minimum is otherwise invisible).
  *
  * tready = the trigger FIFO is readable at this moment (it stays readable until the daemon itself closes it), so this select will report it.
+ *
+ * tusec: the microsecond half of the timeval passed (qsim's select writes the remaining time back like Linux, so a tv_usec that is not
+ * re-initialised shows here).  simnow: the simulator's clock when select() is entered — the program's own `recent` is what its timeout was
+ * computed from, simnow is what time it really is.  todo: number of directory entries in queue/todo at this moment.
  *
  * descriptor lists: d<c> = chanfdin[c], c<c> = chanfdout[c], t = the trigger FIFO, x<fd> = anything else (only fds < nfds count).
  * The structs mirror the (anonymous / file-local) struct types of qmail-send.c; a layout change shows up as DISAGREE. */
@@ -81,6 +85,8 @@ static void c16_snapshot(simproc *p, int nfds, fd_set *r, fd_set *w, struct time
   }
   n = c16_fmt_all(b, n, sizeof b - 2, "q0", &pqchan[0]); n = c16_fmt_all(b, n, sizeof b - 2, "q1", &pqchan[1]);
   n = c16_fmt_all(b, n, sizeof b - 2, "qfail", &pqfail); n = c16_fmt_all(b, n, sizeof b - 2, "qdone", &pqdone);
+  int ntodo = 0; for (int i = 0; i < W.ndent; i++) if (W.dent[i].ino >= 0 && strstr(W.dent[i].path, "/queue/todo/")) ntodo++;
+  if (n + 120 < sizeof b) n += snprintf(b + n, sizeof b - n, " tusec=%ld simnow=%ld todo=%d", tv ? (long)tv->tv_usec : 0L, (long)W.clock, ntodo);
   b[n++] = '\n';
   hbuf_add(&sim_trace, b, n);
 }
